@@ -69,6 +69,11 @@ class P(ServeProp):
                 out.append("pct %s # unsafe=%d n=1" % (hx(s), unsafe(s)))
             elif r < 0.7:
                 q = rnd.choice(["", "=", "&", "a", "a=", "=b", "a=b=c", "a=1&a=2", "%", "%2", "&&a=b&&", " ", "a=%26", "%3D=%26"]) if rnd.random() < 0.4 else self.text(rnd, 20)
+                # names that repeat inside one query (C17_last_value_wins): cut from the text just drawn, without drawing again
+                if len(q) >= 4 and len(q) % 3 == 0:
+                    a, b, c = q[:len(q) // 3], q[len(q) // 3:2 * len(q) // 3], q[2 * len(q) // 3:]
+                    nm = self.encode(a) or "k"
+                    q = nm + "=" + self.encode(b) + "&j=" + self.encode(c) + "&" + nm + "=" + self.encode(c) + ("&" + nm + "=" if len(q) % 2 else "")
                 out.append("pq " + hx(q))
             else:
                 # the echo endpoints: the encoder's output sent on the wire
